@@ -12,6 +12,12 @@ C = {
          "trusted: TLC, tokio paused clock; whole-millisecond periods; f64 tie of the sliding counter allowed both ways exactly at equality", 'sim'),
  'C15': ("Same specification, C15 profile: every decision of the real limiter must equal the decision of the modelled try_acquire at that instant (admit at once iff spare capacity, later only with a real permit, otherwise rejected), decisions within timeout_duration, rejected calls start no inner call, admitted exactly one, idle-then-burst as a TLC invariant, no caller left undecided at the end of a run.",
          "trusted: TLC, tokio paused clock; urgent executor", 'sim'),
+ 'C03': ("Trace validation with an observer built only from what a real execution shows (the lock-free state view logged after every step, inner-service starts, results): from the first step that shows Open until wait_duration_in_open later, or until a step shows another state, every first poll of a new caller on any clone must return at once the open-circuit error (or the fallback's value) and start no inner call. Executions: TLC-generated behaviours of spec/CircuitBreaker.tla with concurrent callers (3-4 callers, force_open, failure-rate and slow-call opening) and seeded random schedules, under a virtual clock. TLC also model-checks the machine (3M+ states).",
+         "trusted: TLC, tokio paused clock; opening instant = first step whose logged view is Open (time only moves in advance steps)", 'sim'),
+ 'C04': ("spec/CircuitBreaker.tla is the documented machine; TLC enumerates all sequential histories to depth 6-7 over a grid of 100-400 configurations (both window types, N, minimum calls below/equal/above N, thresholds 0..1, permitted trials, slow-call detection, custom classifier). TLC-generated histories and long seeded random histories (calls ok/e1/e2, fast/slow, waits around wait_duration, force_open, force_closed, reset) run against the real breaker; after every step state(), state_sync(), is_open(), metrics().state, inner-invoked and the result must equal the machine's.",
+         "trusted: TLC, tokio paused clock (verif-hooks); thresholds restricted to quarters so f64 and integer arithmetic agree", 'sim'),
+ 'C09': ("Observer over real executions: within one observed half-open period the callers that started an inner call and were not cancelled number at most permitted_calls_in_half_open, and further new callers are rejected at once. Executions have 5-16 callers arriving while open/half-open in all poll orders, trial latencies and outcomes from the gated inner service. HalfBound is a TLC invariant of the machine.",
+         "trusted: TLC, tokio paused clock; a cancelled trial call hands its slot back (see DESIGN.md 6), so cancelled trials are not counted", 'sim'),
 }
 def main():
     props = [json.loads(l) for l in open(os.path.join(ROOT, 'properties.jsonl'))]
